@@ -26,6 +26,7 @@ func main() {
 	}
 	dh.Source(r)
 	dh.Corpus(r)
+	dh.CfgGrid(r)
 	dh.Generate(r, 2, []int{1, 2, 3}, dh.NCfg)
 	if r.Thorough() {
 		dh.PrlSweep(r, 2, 4)
